@@ -40,3 +40,18 @@ package withstack
 //@   props C03 C12 C11
 //@   ensures len(result) == 1
 //@   ensures[C03] safeSeq(result)
+
+// ---- C15: what the report builder asks of this package (naming only) ----
+//@ spec func olsFile(e error) string
+//@ spec func olsLine(e error) int
+//@ spec func olsFn(e error) string
+//@ spec func olsOk(e error) bool
+
+//@ func GetOneLineSource
+//@   props C15
+//@   trusted "naming only: file/line/function/ok are deterministic functions of the error (recursive walk over the direct-cause chain; its body is not re-verified here)"
+//@   ensures file == olsFile(err) && line == olsLine(err) && fn == olsFn(err) && ok == olsOk(err)
+
+//@ func GetReportableStackTrace
+//@   props C15
+//@   trusted "result unconstrained: nil or some stack trace object (frames content: parser/runtime, not decided)"
